@@ -162,14 +162,21 @@ Example C06_orderly_exit_exists :
   exists h s, crun true (proc_init 2) h = Some s /\ exited s = Some ExInterrupted /\ all_true (aggr_closed s) = true.
 Proof. exact signal_orderly_exit_exists. Qed.
 
-(* C06_signal_flush, full statement: in every execution of the process model WITH WHAT
-   cli/cli.go DOES NOW (cli_waits is regenerated from the source), an orderly exit comes after
-   every pool's aggregator has closed its destination:
-     forall pools h s r, crun cli_waits (proc_init pools) h = Some s -> exited s = Some r ->
-                         orderly r = true -> all_true (aggr_closed s) = true.
-   It is FALSE of the current tree: after SIGINT/SIGTERM the cli exits as soon as Engine.Run
-   has returned (log.Fatal "Engine interrupted"), without Engine.Wait(). Witness: *)
-Theorem C06_signal_flush_refuted :
-  exists h s, crun cli_waits (proc_init 1) h = Some s /\ exited s = Some ExInterrupted /\ all_true (aggr_closed s) = false.
+(* C06_signal_flush (full statement), about WHAT cli/cli.go DOES NOW (cli_waits is regenerated
+   from the source on every run; the bridge Gen/Phout_bridge.v requires it to be true): in
+   every execution of the process model, every exit that is not forced by the interrupt
+   timeout or by a second signal comes after every pool's aggregator has drained its queue,
+   flushed and closed its destination. *)
+Theorem C06_signal_flush : forall pools h s r,
+  crun cli_waits (proc_init pools) h = Some s -> exited s = Some r -> orderly r = true ->
+  all_true (aggr_closed s) = true.
+Proof. exact signal_flush_now. Qed.
+Print Assumptions C06_signal_flush.
+
+(* Before the fix c499f4c the cli exited as soon as Engine.Run had returned (no Engine.Wait());
+   for such a cli the statement is false — this is the witness that was replayed on the real
+   binary (seeded/fix-C06-signal-flush). *)
+Theorem C06_signal_flush_without_wait_refuted :
+  exists h s, crun false (proc_init 1) h = Some s /\ exited s = Some ExInterrupted /\ all_true (aggr_closed s) = false.
 Proof. exact signal_flush_not_waiting_refuted. Qed.
-Print Assumptions C06_signal_flush_refuted.
+Print Assumptions C06_signal_flush_without_wait_refuted.
